@@ -44,6 +44,10 @@ func genC13(g GenCtx) interface{} {
 	}
 	sc.VaryLat = rng.Intn(3) == 0
 	sc.Periods = 3 + rng.Intn(18)
+	if rng.Intn(25) == 0 {
+		sc.Periods = 120 + rng.Intn(300) // counters and accumulations only show after many cycles
+		sc.PeriodMs = pickInt(rng, 10, 100)
+	}
 	sc.CloseAtMs = rng.Intn(2*sc.PeriodMs + 1)
 	if rng.Intn(2) == 0 {
 		sc.CloseAfterSteps = 1 + rng.Intn(400)
